@@ -65,6 +65,23 @@ fn check_work_function(ctx: &mut Ctx) {
             sampled += 1;
             ctx.samples.push(json!({"sub":"work_function","burnfee":bf,"t0":t0,"dt1":d1,"dt2":d1+d2,"heartbeat":hb,"needed1":w1,"needed2":w2}));
         }
+        // the requirement is "set by the parent's burn fee and the elapsed time": inside the two
+        // heartbeats it is the burn fee (the curve's y-axis value) divided by the elapsed
+        // milliseconds, to the nolan (exact rational in u128; tolerance: rounding plus f64 precision)
+        if let Some(two) = hb.checked_mul(2) {
+            if d1 < two {
+                let exact = bf as u128 / d1 as u128;
+                let tol = 1 + (exact >> 40);
+                let got = w1 as u128;
+                if got + tol < exact || got > exact + tol + 1 {
+                    ctx.violation(
+                        "C08|work_needed_off_the_curve",
+                        format!("needed({bf}, dt={d1}) = {w1} but burn fee / elapsed time = {exact} (heartbeat {hb})"),
+                        json!({"sub":"work_function","burnfee":bf,"t0":t0,"d1":d1,"d2":d2,"hb":hb}),
+                    );
+                }
+            }
+        }
         if w2 > w1 {
             ctx.violation(
                 "C08|work_needed_increases_with_time",
@@ -560,7 +577,7 @@ pub fn arb_payout_case() -> impl Strategy<Value = PayoutCase> {
 // ---------------------------------------------------------------------------
 
 pub fn run(ctx: &mut Ctx) {
-    ctx.rule = "(a) work function over the full domain (burn fee: any u64 incl. powers of two; timestamps to 2e12 and any u64; heartbeat 1..1e5): needed(t2) <= needed(t1) for t0 < t1 <= t2, and needed == 0 once t - t0 >= 2*heartbeat. (b) gate: blocks built with the repository's Block::create (bypassing the producer's own gate) from 1..4 fee-paying transactions with valid paths of 1..4 hops, no path, paths not ending at the creator, a bad hop signature or a gap, at the last millisecond before / the first millisecond at which / after the oracle work (fees halved per extra hop, zero unless the path ends at the creator; recomputed by the harness) meets the requirement; accepted <=> all paths valid and work >= needed; in half of the cases the candidate also goes to a second node that joined mid-chain (fed the chain from a later block on, never saw block 1, so it validates without its utxoset) and has to reach the same verdict. (c) payouts: in every block accepted on the longest chain of generated honest forked histories the fee transaction pays only the golden-ticket solver and keys on routing paths (or senders of path-less transactions) of the blocks being paid, at most what those blocks collected (u128), and the ticket solves the parent. non-trivial: (a) non-zero burn fee inside the two-heartbeat window, (b)/(c) >= 1 transaction with >= 2 hops and non-zero fee".into();
+    ctx.rule = "(a) work function over the full domain (burn fee: any u64 incl. powers of two; timestamps to 2e12 and any u64; heartbeat 1..1e5): needed(t2) <= needed(t1) for t0 < t1 <= t2, needed == 0 once t - t0 >= 2*heartbeat, and inside the two heartbeats needed == burn fee / elapsed ms to the nolan (exact u128 quotient, tolerance 1 nolan + 2^-40 relative). (b) gate: blocks built with the repository's Block::create (bypassing the producer's own gate) from 1..4 fee-paying transactions with valid paths of 1..4 hops, no path, paths not ending at the creator, a bad hop signature or a gap, at the last millisecond before / the first millisecond at which / after the oracle work (fees halved per extra hop, zero unless the path ends at the creator; recomputed by the harness) meets the requirement; accepted <=> all paths valid and work >= needed; in half of the cases the candidate also goes to a second node that joined mid-chain (fed the chain from a later block on, never saw block 1, so it validates without its utxoset) and has to reach the same verdict. (c) payouts: in every block accepted on the longest chain of generated honest forked histories the fee transaction pays only the golden-ticket solver and keys on routing paths (or senders of path-less transactions) of the blocks being paid, at most what those blocks collected (u128), and the ticket solves the parent. non-trivial: (a) non-zero burn fee inside the two-heartbeat window, (b)/(c) >= 1 transaction with >= 2 hops and non-zero fee".into();
     check_work_function(ctx);
     let cases = ctx.tier.pick(500u32, 15_000);
     pbt_run(ctx, "gate", cases, arb_gate_case(), |c, case, counting| {
